@@ -11,7 +11,9 @@ import SpVerif.Ops.ByteField
 /-!
 # Driver ops for C09 (prefix `c09_`)
 
-`c09_unit {kind, cfg, raw, alt}` — decode `raw` as a unit of `kind`; report the canonical fields (the
+`c09_unit {kind, cfg, unit, suffix, alt}` — decode `raw = unit ‖ suffix` as a unit of `kind` (the two
+parts are separate fields so that a minimised failing case can never claim a packed length that is
+not the length of its own unit); report the canonical fields (the
 JSON of the owning property's ops), the reported length `N`, the declared length, whether `N` lies
 inside `raw`, and — evaluated inside the op — whether decoding `raw[:N]` and `raw[:N] ‖ alt` gives
 the same object.
@@ -108,7 +110,7 @@ def getRaws (j : Json) : R (List Bytes) := do
 def ops : List (String × Handler) := [
   ("c09_unit", fun j => do
       let k ← getKind j
-      let raw ← getHex j "raw"
+      let raw := (← getHex j "unit") ++ (← getHex j "suffix")
       let alt ← getHex j "alt"
       pure (res (unitJ k raw alt) (k.decode raw))),
   ("c09_split", fun j => do
